@@ -396,7 +396,7 @@ func init() {
 		jobs: func(tier string) []job {
 			js := []job{J(".", "VX_C07_History", 1), J(".", "VX_C07_History", 2), J(".", "VX_C07_History", 3), J(".", "VX_C07_History", 4), J(".", "VX_C07_History", 3, 1),
 				J(".", "VX_C07_AcceptHooks", 0, 0), J(".", "VX_C07_AcceptHooks", 1, 0), J(".", "VX_C07_AcceptHooks", 0, 1), J(".", "VX_C07_AcceptHooks", 1, 1),
-				J(".", "VX_C07_CloseRace", 1), J(".", "VX_C07_CloseRace", 2), J(".", "VX_C07_ModifySocket", 0), J(".", "VX_C07_ModifySocket", 1),
+				J(".", "VX_C07_CloseRace", 1), J(".", "VX_C07_CloseRace", 2), J(".", "VX_C07_ModifySocket", 0), J(".", "VX_C07_ModifySocket", 1), J(".", "VX_C07_ModifySocket", 1, 1), J(".", "VX_C07_ModifySocket", 0, 1),
 				J(".", "VX_C07_DialHooks", 0), J(".", "VX_C07_DialHooks", 1), J(".", "VX_C07_DialHooks", 2), J(".", "VX_C07_DialHooks", 0, 1), J(".", "VX_C07_DialHooks", 1, 1), J(".", "VX_C07_DialHooks", 2, 1), J(".", "VX_C07_CloseWaitsThenLoss", 0)}
 			js = append(js, historyJobs(tier, false)...)
 			js = append(js, J(".", "VX_C07_NoHandlerAfterClose", 0), J(".", "VX_C07_NoHandlerAfterClose", 1),
